@@ -107,6 +107,8 @@ func (stageComp) Corpus() [][]string {
 		// crash images of a complete reception + pipeline
 		{"base ?", "recover 0", "prepare a 3 0", "cut 2 recv a - - 3 b1.2.3 0 3 1.2.3 0", "observe", "recover 0", "settle 0", "observe"},
 		{"base ?", "recover 0", "prepare a 3 0", "recv a - - 3 b1.2.3 0 3 1.2.3 0", "process a 0", "cut 2 finh a 0", "observe", "recover 0", "settle 0", "observe", "status a 0 0"},
+		// parts of a new file on several connections at the same instant (real goroutines, lined up before the file lock)
+		{"base ?", "recover 0", "hammer 4 300", "hammer 2 200"},
 		// a retransmission of the whole file enters Receive while the original is still in flight, and finishes after the
 		// original was validated and delivered: recognised as a duplicate, answered "passed", never delivered again
 		{"base ?", "recover 0", "prepare a 2 0", "ropen 1 a - - 2 b1.2 0 2", "recv a - - 2 b1.2 0 2 1.2 0", "settle 0", "observe", "rwrite 1 1.2 0", "settle 0", "observe",
